@@ -351,6 +351,25 @@ func checkC09(w *World, r *Report) {
 			short := n[strings.LastIndex(n, ".")+1:]
 			allowed := short == "MkdirAll" || (fn == pub && (short == "CreateTemp" || short == "Rename")) || (fn == helper && helper != nil && short == "Rename") ||
 				(splitRegion[fn] && (short == "CreateTemp" || short == "Rename"))
+			if !allowed && short == "Remove" && len(ci.Common().Args) == 1 {
+				// cleaning up the save's own temporary file after a failure: the removed name is the CreateTemp result's name
+				isTemp := func(v ssa.Value) bool { return strings.Contains(w.APThrough(v), "os.CreateTemp(") }
+				arg := w.Resolve(ci.Common().Args[0])
+				if isTemp(arg) {
+					allowed = true
+				} else if prm, isP := arg.(*ssa.Parameter); isP && prm.Parent() == fn {
+					nSites, okSites := 0, true
+					for _, g := range storeFuncs {
+						for _, cs := range findCalls(g, func(_ string, c *ssa.CallCommon) bool { return c.StaticCallee() == fn }) {
+							nSites++
+							if idx := paramIdxOf(prm); idx >= len(cs.Common().Args) || !isTemp(cs.Common().Args[idx]) {
+								okSites = false
+							}
+						}
+					}
+					allowed = nSites > 0 && okSites
+				}
+			}
 			r.Check(allowed, "who-may-write.store", FuncName(fn)+": "+n, w.InstrPos(ci),
 				"allowed file-system mutation (directory creation / temp file / publishing rename)",
 				n+" in package store outside the CreateTemp→Encode→Rename protocol: the published file (or its directory) can be left truncated, partial or missing")
